@@ -35,7 +35,7 @@ def gen_plan(rng, tier, i):
     nsrc = rng.choice([1, 2, 2] if tier == "quick" else [1, 2, 2, 2, 3])
     nchan = rng.choice([1, 2])
     window = 2 * nsrc * 512 + rng.choice([0, 0, 37, 200])
-    hop = rng.choice([window, window // 2, window // 2 + 13, window * 3 // 4])
+    hop = rng.choice([window, window // 2, window // 2 + 13, window * 3 // 4, window + 97, window * 3 // 2])  # incl. gaps between windows
     nwin = rng.choice([0, 1, 2, 2, 3, 3, 4] if nsrc < 3 else [1, 2, 3])
     if nwin == 0:
         nsampl = window - rng.choice([1, 100])
@@ -72,6 +72,9 @@ def gen_plan(rng, tier, i):
         "empty": empty, "drop": drop, "perm": rng.choice([False, True]), "variants": ["sources", "images"],
         "evaluate": rng.random() < 0.5, "sig_seed": rng.getrandbits(31), "poisons": poisons,
         "est_kind": rng.choice(["mix", "mix", "filtered", "noisy"]),
+        # estimates delivered in a non-identity order: with compute_permutation=False every window must be scored
+        # as delivered, with True the best assignment must be found per window
+        "est_order": (rng.sample(range(nsrc), nsrc) if (nsrc > 1 and rng.random() < 0.4) else None),
     }
 
 
@@ -93,6 +96,8 @@ def build_signals(plan):
         est = est + 0.01 * g.randn(nsrc, nsampl, nchan)
     else:
         est = ref + 0.5 * g.randn(nsrc, nsampl, nchan)
+    if plan.get("est_order"):
+        est = est[plan["est_order"]]
     for d in plan["drop"]:
         a, b = d["win"] * plan["hop"], d["win"] * plan["hop"] + plan["window"]
         arr = ref if d["side"] == "ref" else est
@@ -375,7 +380,7 @@ def shrink(plan, test, budget):
 
 def describe(plan, res):
     return {k: plan[k] for k in ("nsrc", "nchan", "nsampl", "window", "hop", "nwin_planned", "empty", "drop", "perm", "variants",
-                                 "evaluate", "poisons", "est_kind", "sig_seed")} | {"log_digest": res["log_digest"]}
+                                 "evaluate", "poisons", "est_kind", "sig_seed", "est_order")} | {"log_digest": res["log_digest"]}
 
 
 def coverage(agg, tier, n_runs, wall, extra):
